@@ -14,7 +14,15 @@ import (
 func f32bits(f float32) uint32 { return math.Float32bits(f) }
 func f64bits(f float64) uint64 { return math.Float64bits(f) }
 
-type rng struct{ s uint64 }
+// rng is the seeded generator.  narrow makes the values drawn for identifiers and texts come from a tiny set (the
+// packets of one session keep naming the same few sources): keys recur and collide.  An object is narrow iff the
+// top bit of its seed is set, so the property travels with the seed through provenance, twins and overwrites.
+type rng struct {
+	s      uint64
+	narrow bool
+}
+
+const narrowBit = uint64(1) << 63
 
 func (r *rng) u64() uint64 {
 	r.s += 0x9e3779b97f4a7c15
@@ -33,7 +41,7 @@ func (r *rng) u32() uint32       { return uint32(r.u64()) }
 func (r *rng) u16() uint16       { return uint16(r.u64()) }
 func (r *rng) u8() uint8         { return uint8(r.u64()) }
 func (r *rng) chance(n int) bool { return r.intn(n) == 0 }
-func (r *rng) fork() *rng        { return &rng{s: r.u64()} }
+func (r *rng) fork() *rng        { return &rng{s: r.u64(), narrow: r.narrow} }
 
 // tfield returns an XR thinning value: usually four bits, sometimes with bits the wire cannot carry.
 func (r *rng) tfield() uint8 {
@@ -63,14 +71,20 @@ func (r *rng) seq16() uint16 {
 }
 
 // interesting 32-bit values
+// sessionSSRCs: the packets of one session keep referring to the same handful of sources.
+var sessionSSRCs = [...]uint32{1, 2, 3, 4, 0x4A3B2C1D, 0x902F0E11, 0xDEADBEEF, 0x00010000}
+
 func (r *rng) ssrc() uint32 {
+	if r.narrow && !r.chance(8) {
+		return sessionSSRCs[4+r.intn(3)]
+	}
 	switch r.intn(8) {
 	case 0:
 		return 0
 	case 1:
 		return 0xFFFFFFFF
-	case 2:
-		return uint32(r.intn(4)) + 1 // small: collisions between packets on purpose
+	case 2, 3, 4:
+		return sessionSSRCs[r.intn(len(sessionSSRCs))] // collisions between packets on purpose
 	}
 	return r.u32()
 }
@@ -313,6 +327,9 @@ func genItem(r *rng, sz int, cname bool) rtcp.SourceDescriptionItem {
 			t = rtcp.SDESEnd
 			n = 3
 		}
+	}
+	if sz == szTypical && r.narrow && !r.chance(8) {
+		return rtcp.SourceDescriptionItem{Type: t, Text: vocabText(16, r.intn(4))}
 	}
 	if sz == szTypical && !r.chance(3) {
 		// Texts of a real session come from a small vocabulary of equal-length strings (a stack generates all its
@@ -938,7 +955,7 @@ func genRaw(r *rng, sz int) *rtcp.RawPacket {
 // genPacket builds a fresh packet of the given kind from the seed.  Equal
 // (kind, seed) give equal values at fresh addresses.
 func genPacket(kind int, seed uint64) rtcp.Packet {
-	r := &rng{s: seed ^ uint64(kind)*0x9e3779b97f4a7c15}
+	r := &rng{s: seed ^ uint64(kind)*0x9e3779b97f4a7c15, narrow: seed&narrowBit != 0}
 	sz := r.sizeClass()
 	p := genPacketSz(r, kind, sz)
 	addSpare(reflect.ValueOf(p), r.fork(), 0)
@@ -1120,7 +1137,7 @@ func genCompound(r *rng, sz int) *rtcp.CompoundPacket {
 
 // genList builds a list of packets for rtcp.Marshal([]Packet).
 func genList(seed uint64) []rtcp.Packet {
-	r := &rng{s: seed ^ 0x1157}
+	r := &rng{s: seed ^ 0x1157, narrow: seed&narrowBit != 0}
 	n := r.intn(5)
 	if r.chance(8) {
 		return nil
